@@ -59,7 +59,7 @@ package bpv7
 //@ assigns wstream(w)
 //@ ensures result == nil ==> wpos(w) == old(wpos(w)) + 2 + ((bsi.Asserted && bsi.StatusRequested) ? 1 : 0) && encBSI(w, old(wpos(w)), bsi.Asserted, bsi.Asserted && bsi.StatusRequested, uint64(bsi.Time))
 
-// govc:func (*BundleStatusItem).UnmarshalCbor property C17
+// govc:func (*BundleStatusItem).UnmarshalCbor property C17 C04
 //@ requires r != nil
 //@ assigns rstream(r), *bsi
 //@ ensures rpos(r) >= old(rpos(r))
@@ -78,7 +78,7 @@ package bpv7
 //@ ensures result == nil ==> wpos(w) == old(wpos(w)) + 4 + (bid.IsFragment ? 2 : 0) && encBID(w, old(wpos(w)), *bid)
 
 // The decoder is told beforehand (IsFragment) whether offset and total length follow.
-// govc:func (*BundleID).UnmarshalCbor property C17
+// govc:func (*BundleID).UnmarshalCbor property C17 C04
 //@ assigns rstream(r), *bid
 //@ ensures bid.IsFragment == old(bid.IsFragment)
 //@ case U:
